@@ -231,12 +231,57 @@ def c05(chk, tier):
                      tlc_seed=seed())
         # impl -> spec: random adversarial schedules with counter jumps anywhere in 0..2^64-1, validated by TLC
         traces(chk, "seq", 20 if thorough else 2, "random adversarial schedule", nsteps=2000 if thorough else 400)
+        # long runs: more than 2^20 (thorough: 2^24) consecutive rejections, more than 2^16 (2^20) messages in a row
+        c05_soak(chk, ses, (1 << 24) + 77 if thorough else (1 << 20) + (1 << 16) + 7, (1 << 20) + 5 if thorough else 70000)
     finally:
         ses.close()
     require_outcomes(chk, ['open/ok', 'open/err/OpenError', 'open/err/MessageLimitReached'])
     chk.cov["rule"] = ("every open transition of the bounded model (delivery kind x source x receiver position in the "
                        "carry-boundary set x latch x form x AEAD) as one implementation test, plus random walks from "
                        "position 0; distinct = distinct (aead, delivery kind, source, pre-counter, latch, form, outcome)")
+
+
+def c05_soak(chk, ses, n_reject, n_round):
+    """Long runs the bounded model cannot enumerate but whose prediction follows by induction from the per-step
+    properties (a rejected open is a stutter step; an accepted one advances by one): n_reject consecutive rejected
+    deliveries (bogus bytes, then a damaged copy of the genuine next message) must all be OpenError with the counter
+    unmoved, after which the genuine message still opens; then n_round messages in a row round-trip.  Anything a
+    receiver counts besides the sequence number (consecutive failures, messages since ...) is driven past 2^16 / 2^20."""
+    import hashlib
+    ex = ses.ex
+    hx = lambda tag, n: hashlib.shake_128(("c05soak-%d-%s" % (seed(), tag)).encode()).hexdigest(n)
+    for aead in (rot([1, 2, 3], 0),):
+        nk = {1: 16, 2: 32, 3: 32}[aead]
+        raw = {"op": "raw_ctx", "suite": [32, 1, aead], "key": hx("key", nk), "base_nonce": hx("bn", 12), "exporter_secret": hx("exp", 32)}
+        script = [dict(raw, ctx="soak_s", role="S"), dict(raw, ctx="soak_r", role="R"),
+                  {"op": "seal", "ctx": "soak_s", "form": "alloc", "pt": hx("pt", 40), "aad": "aa"}]
+        evs = [ex.call(c) for c in script]
+        if not all("ok" in e for e in evs):
+            raise ToolError("soak: cannot build the session: %s" % json.dumps(evs)[:300])
+        ct0 = evs[2]["ok"]["ct"]
+        damaged = ("%02x" % (int(ct0[:2], 16) ^ 1)) + ct0[2:]
+        steps = [({"op": "soak", "mode": "reject", "ctx": "soak_r", "n": n_reject, "ct": hx("garbage", 48), "aad": "aa"}, n_reject),
+                 ({"op": "soak", "mode": "reject", "ctx": "soak_r", "n": 70000, "ct": damaged, "aad": "aa"}, 70000),
+                 ({"op": "soak", "mode": "reject", "ctx": "soak_r", "n": 70000, "ct": ct0, "aad": "ab"}, 70000),
+                 ({"op": "open", "ctx": "soak_r", "form": "alloc", "ct": ct0, "aad": "aa"}, None),
+                 ({"op": "soak", "mode": "roundtrip", "ctx": "soak_r", "ctx_s": "soak_s", "n": n_round, "pt": hx("pt2", 24), "aad": ""}, n_round)]
+        for cmd, want in steps:
+            ev = ex.call(cmd)
+            script.append(cmd)
+            good = "ok" in ev and (want is None or ev["ok"].get("done") == want)
+            if want is None and good:
+                good = ev["ok"].get("pt") == script[2]["pt"]
+            if not good:
+                what = ("after %s conforming iterations: %s" % (ev["ok"].get("done"), ev["ok"].get("bad"))) if "ok" in ev and want is not None \
+                    else json.dumps({k: ev.get(k) for k in ("ok", "err", "panic")})[:200]
+                chk.violation("long run on one session (%s %s, n=%s): %s" % (cmd["op"], cmd.get("mode", ""), cmd.get("n", 1), what),
+                              {"kind": "trace", "script": script, "why": what, "event": ev, "fingerprint": "c05-soak-" + cmd.get("mode", "open")})
+                return False
+        for c in ("soak_s", "soak_r"):
+            ex.call({"op": "drop", "ctx": c})
+        chk.case(("soak", aead, n_reject, n_round))
+        chk.trace_ok()
+    return True
 
 
 # ------------------------------------------------------------------------------------------- C06
@@ -434,7 +479,8 @@ def c02(chk, tier):
                                      ModeSet="{0, 3}", Vals='"leaf"', Shape='"sweep"', SweepMax=300 if thorough else 140,
                                      # ... sparsely on to 1200: every 3rd length and +-2 around every multiple of 64
                                      SweepExtra=kset(sorted(set(range(301 if thorough else 141, 1201 if thorough else 701, 3))
-                                                            | {64 * k + d for k in range(3, 19 if thorough else 11) for d in (-2, -1, 0, 1, 2)})),
+                                                            | {64 * k + d for k in range(3, 19 if thorough else 11) for d in (-2, -1, 0, 1, 2)}
+                                                            | set(hashed_boundaries((1024, 4096) if not thorough else (1024, 2048, 4096, 8192))))),
                                      Perturb="{}", Emit=True, MaxExports=1),
                           exact_tags=ALL, casekey=key,
                           want=lambda last, tr: last["op"] == "setup_s" or (last["op"] == "export" and last["plain"]["len"] == 32
@@ -460,6 +506,12 @@ def blen_of(chunks):
 def rot(seq, k):
     """seed-rotated choice, so that successive seeds sweep the whole range"""
     return seq[(seed() + k) % len(seq)]
+
+
+def hashed_boundaries(sizes=(1024, 2048, 4096, 8192), headers=(26, 28, 23)):
+    """input lengths at which the string that is actually HASHED - "HPKE-v1" || suite_id || label || input, headers of
+    26 (info_hash), 28 (psk_id_hash), 23 (secret) bytes - reaches a multiple of a power of two (a staging buffer)"""
+    return sorted({b * m - h + d for b in sizes for m in (1, 2) for h in headers for d in (-1, 0, 1)})
 
 
 def kset(xs):
@@ -596,6 +648,7 @@ def c07(chk, tier):
         setup_transitions(chk, ses, "gen_lastbyte",
                           setup_over(KemSet="{32}", KdfSet=kset([rot([1, 2, 3], 1)]), AeadSet=kset([rot([1, 2, 3], 2)]), ModeSet="{1}",
                                      Vals='"leaf"', Shape='"sweep"', SweepMax=1100 if thorough else 600, Perturb='{"none", "lastbyte"}',
+                                     SweepExtra=kset(hashed_boundaries()),
                                      Emit=True, MaxSeals=1, MaxOpens=1, MaxExports=1),
                           want=lambda last, tr: last["op"] in ("setup_r", "open"), casekey=tr_key("c07l"))
         traces(chk, "session", 10 if thorough else 2, "random sessions with one differing receiver argument",
@@ -821,7 +874,7 @@ def c11(chk, tier):
 
 
 # ------------------------------------------------------------------------------------------- C03
-def stateless_calls(chk, ses, module, base, name, over, exact_tags, casekey, want=None, **kw):
+def stateless_calls(chk, ses, module, base, name, over, exact_tags, casekey, want=None, adjacent=False, **kw):
     """models whose calls need no state (MC_Kem, MC_Codec): every printed call is one implementation test"""
     n = [0]
 
@@ -832,10 +885,42 @@ def stateless_calls(chk, ses, module, base, name, over, exact_tags, casekey, wan
         ses.replay([last], exact_tags=exact_tags, label=name, sample=(n[0] % 97 == 0), **kw)
         n[0] += 1
         chk.case(casekey(last))
+    recs = []
+    if adjacent:
+        on0 = on
+
+        def on(v):              # noqa: F811
+            on0(v)
+            if not want or want(v["last"]):
+                recs.append(v["last"])
     generate(chk, module, base, name, over, invariants=None, on_value=on, workers=2)
     if n[0] == 0:
         raise ToolError("no call generated by %s" % name)
+    if adjacent:
+        adjacent_pass(chk, ses, recs, exact_tags, name, **kw)
     return n[0]
+
+
+def adjacent_pass(chk, ses, recs, exact_tags, name, **kw):
+    """Stateless calls are functions of their arguments - also right after a call that differs in ONE argument only
+    (anything the library remembers keyed by the other arguments would serve the previous call's value).  Calls that
+    agree in everything but one byte argument are made back to back, forward and backward."""
+    groups = {}
+    for l in recs:
+        b = l.get("bytes") or {}
+        if not isinstance(b, dict) or len(b) < 2:
+            continue
+        for f in b:
+            k = json.dumps([l["op"], l["plain"], {x: y for x, y in b.items() if x != f}, f], sort_keys=True)
+            groups.setdefault(k, []).append(l)
+    done = 0
+    for k, ls in sorted(groups.items()):
+        if len(ls) < 2 or len(ls) > 12:
+            continue
+        seq = ls + ls[-2::-1]
+        ses.replay(seq, exact_tags=exact_tags, label=name + " (neighbours: one argument differs)", sample=(done == 0), **kw)
+        done += 1
+    chk.case(("adjacent", name, done))
 
 
 @prop("C03")
@@ -856,9 +941,10 @@ def c03(chk, tier):
             stateless_calls(chk, ses, "MC_Kem", "MC_Kem.cfg", "gen_kem_%d" % kem,
                             dict(KemSet="{%d}" % kem, NIkm=str(2000 if thorough else 40), SmallOrder="FALSE", Emit="TRUE",
                                  IkmSweep=str(300 if thorough or kem == rot(list(KEMS), 0) else 140)),
-                            ALL, key)
+                            ALL, key, adjacent=True)
         chk.notes["derive_keypair_inputs_that_took_the_rejection_branch"] = _terms.STATS["firstvalid_retries"]
-        if _terms.STATS["firstvalid_retries"] < 1:
+        if _terms.STATS["firstvalid_retries"] < 1 and not chk.violations:
+            # (with a violation on record the expected values of the deviating calls may never have been evaluated)
             raise ToolError("no DeriveKeyPair input exercised the rejection branch (stale witnesses in MC_Kem.tla)")
     finally:
         ses.close()
@@ -1205,12 +1291,15 @@ def c16(chk, tier):
             c = "c%d" % nctx
             key, bn, ex = rb(nk), rb(nn), rb(NH[kdf])
             add({"op": "raw_ctx", "suite": list(su), "role": role, "key": key, "base_nonce": bn, "exporter_secret": ex, "ctx": c}, "raw_ctx", c)
-            if aead != 65535 and role == "S":
-                add({"op": "seal", "ctx": c, "pt": rb(20), "aad": rb(3), "form": "alloc"}, "seal", c)
-            if aead != 65535 and role == "R":
+            # (export-only suites too: their seal / open PANIC, and what is dropped while the panic unwinds is held to
+            # the same standard)
+            if role == "S":
+                add({"op": "seal", "ctx": c, "pt": rb(20), "aad": rb(3), "form": "alloc" if nctx % 4 else "detached"}, "seal", c)
+            if role == "R":
                 add({"op": "open", "ctx": c, "ct": rb(40), "aad": "", "form": "alloc"}, "open", c)
             add({"op": "export", "ctx": c, "exporter_ctx": rb(4), "len": 32}, "export", c)
-            add({"op": "drop", "ctx": c, "scan": [bn, ex]}, "drop", c)
+            # about every third context is dropped while its owner's thread unwinds from a panic
+            add(dict({"op": "drop", "ctx": c, "scan": [bn, ex]}, **({"unwinding": True} if len(cmds) % 3 == 0 else {})), "drop", c)
         # real setups, all four modes, both roles
         ikm_r, ikm_s = rb(NSK[kem]), rb(NSK[kem])
         i_r = len(cmds)
@@ -1257,6 +1346,7 @@ def c16(chk, tier):
             add({"op": "encap", "kem": kem, "pk_r": {"ref": i_r, "field": "pk"}, "rng": rb(NSK[kem])}, "other")
             add({"op": "drop_shared_secret", "kem": kem, "sk_r": {"ref": i_r, "field": "sk"}, "enc": {"ref": i_e, "field": "enc"}},
                 "drop_shared_secret")
+    chk.notes["contexts_dropped_while_unwinding"] = sum(1 for c in cmds if c.get("unwinding"))
     evs = run_script(cmds)
     # the refinement mapping: purely syntactic (ledger deltas, scan booleans, result kind)
     trace = []
@@ -1375,25 +1465,28 @@ BODY
 
 
 def c18_static(chk):
+    """Send + Sync of every public type, as a compile-time probe - under the full feature set, the default one (no std:
+    what is thread-safe must not depend on std being there) and a build with neither alloc nor std"""
     from . import features
-    kems = list(features.KEM_TYPE.values())
     kdfs = ["HkdfSha256", "HkdfSha384", "HkdfSha512"]
     aeads = ["AesGcm128", "AesGcm256", "ChaCha20Poly1305", "ExportOnlyAead"]
-    body = "".join("    kem::<%s>(); ss::<hpke::OpModeR<'static, %s>>(); ss::<hpke::OpModeS<'static, %s>>();\n" % (m, m, m) for m in kems)
-    body += "".join("    suite::<%s, %s, %s>();\n" % (a, k, m) for a in aeads for k in kdfs for m in kems)
     b = features.Builder("C18")
     try:
-        d = b.crate("sendsync", features.ALL_FEATURES, {"lib.rs": SENDSYNC_SRC.replace("BODY", body)})
-        cmd = ["cargo", "check", "--offline", "--lib"]
-        rc, out = features.run(cmd, d, b.flags(False))
-        chk.case(("static", "send+sync", 48 * 3 + 4 * 5 + 2))
-        if rc != 0:
-            chk.violation("a public type is no longer Send + Sync (compile-time probe fails): "
-                          + " / ".join(l for l in out.split("\n") if l.startswith("error"))[:300],
-                          {"kind": "build", "command": " ".join(cmd), "source": "probe crate asserting Send + Sync for every "
-                           "context, tag, key, encapsulated key, mode and error type", "output": out[-3000:],
-                           "fingerprint": "c18-sendsync"})
-            return False
+        for feats in (features.ALL_FEATURES, ["alloc", "x25519", "p256"], ["x25519"]):
+            kems = [features.KEM_TYPE[k] for k, f in ((32, "x25519"), (16, "p256"), (17, "p384"), (18, "p521")) if f in feats]
+            body = "".join("    kem::<%s>(); ss::<hpke::OpModeR<'static, %s>>(); ss::<hpke::OpModeS<'static, %s>>();\n" % (m, m, m) for m in kems)
+            body += "".join("    suite::<%s, %s, %s>();\n" % (a, k, m) for a in aeads for k in kdfs for m in kems)
+            d = b.crate("sendsync_" + "_".join(feats), feats, {"lib.rs": SENDSYNC_SRC.replace("BODY", body)})
+            cmd = ["cargo", "check", "--offline", "--lib"]
+            rc, out = features.run(cmd, d, b.flags(False))
+            chk.case(("static", "send+sync", tuple(feats), len(kems) * 12 * 3 + len(kems) * 5 + 2))
+            if rc != 0:
+                chk.violation("a public type is not Send + Sync with features %s (compile-time probe fails): " % ",".join(feats)
+                              + " / ".join(l for l in out.split("\n") if l.startswith("error"))[:300],
+                              {"kind": "build", "command": " ".join(cmd), "source": "probe crate asserting Send + Sync for every "
+                               "context, tag, key, encapsulated key, mode and error type", "features": feats, "output": out[-3000:],
+                               "fingerprint": "c18-sendsync"})
+                return False
         return True
     finally:
         b.cleanup()
@@ -1458,8 +1551,10 @@ def c18(chk, tier):
                 if ok:
                     c18_concurrent(chk, ses, steps, npro)
             generate(chk, "MC_Par", "MC_Par.cfg", "gen_par_%d_%d" % (kem, aead),
-                     dict(over, RecordHist="TRUE", HistLen="11", Threads="{1, 2, 3}", MaxSeals="3", MaxOpens="3"),
-                     invariants=["PrintHist"], on_value=onb, simulate=60 if thorough else 25, depth=12, tlc_seed=seed())
+                     # (an export-only suite has no successful seal / open: shorter histories, or none would be printed)
+                     dict(over, RecordHist="TRUE", HistLen="11" if aead != 65535 else "7", Threads="{1, 2, 3}", MaxSeals="3", MaxOpens="3"),
+                     invariants=["PrintHist"], on_value=onb, simulate=60 if thorough else 25, depth=12 if aead != 65535 else 8,
+                     tlc_seed=seed())
             if nwalk[0] == 0:
                 raise ToolError("no schedule generated")
         traces(chk, "session", 8 if thorough else 2, "random sessions on random threads", nsessions=6, nsteps=30, threads=4)
@@ -1576,24 +1671,48 @@ def c18_stress(chk, ses, reps, nthreads=16, hammer=0, ex=None):
         chk.case(("order", nthreads))
         chk.trace_ok()
         return True
-    out = ex.call({"op": "par", "threads": lists, "reps": reps})
-    if "ok" not in out:
-        raise ToolError("par (stress) failed: %s" % json.dumps(out)[:300])
-    chk.case(("stress", nthreads, reps, hammer))
-    for t, res in enumerate(out["ok"]["results"]):
-        div = res[-1].get("diverged") if res and "diverged" in res[-1] else None
-        first = res[:len(lists[t])]
-        bad = next((j for j, (a, b) in enumerate(zip(first, base[t])) if strip(a) != strip(b)), None)
-        if bad is None and div is None:
-            continue
-        j = bad if bad is not None else div["j"]
-        got = first[bad] if bad is not None else div["event"]
-        chk.violation("concurrent sessions of different suites: thread %d (suite %s, mode %d) call %s returns something else "
-                      "than the same call with the same arguments made alone (repetition %s)"
-                      % (t, lists[t][0]["suite"], lists[t][0]["mode"], lists[t][j]["op"], 0 if bad is not None else div["rep"]),
-                      {"kind": "par_stress", "threads": lists, "reps": reps, "thread": t, "call": j,
-                       "concurrent_event": got, "sequential_event": base[t][j], "fingerprint": "c18-stress-" + lists[t][j]["op"]})
+    nl = len(lists)
+    twin = lambda cmds: [dict(c, ctx=c["ctx"].replace("x", "y", 1)) for c in cmds]
+
+    def run_par(exq, reps_, cold, order=tuple(range(nl))):
+        # (cold: every script on TWO threads, so that also two first uses of the same suite coincide)
+        tl = [lists[t] for t in order] + ([twin(lists[t]) for t in order] if cold else [])
+        out = exq.call({"op": "par", "threads": tl, "reps": reps_})
+        if "ok" not in out:
+            raise ToolError("par (stress) failed: %s" % json.dumps(out)[:300])
+        for t2, res in enumerate(out["ok"]["results"]):
+            t = order[t2 % len(order)]
+            div = res[-1].get("diverged") if res and "diverged" in res[-1] else None
+            first = res[:len(lists[t])]
+            bad = next((j for j, (a, b) in enumerate(zip(first, base[t])) if strip(a) != strip(b)), None)
+            if bad is None and div is None:
+                continue
+            j = bad if bad is not None else div["j"]
+            got = first[bad] if bad is not None else div["event"]
+            chk.violation("concurrent sessions of different suites%s: thread %d (suite %s, mode %d) call %s returns something "
+                          "else than the same call with the same arguments made alone (repetition %s)"
+                          % (" as the FIRST calls of a process" if cold else "", t, lists[t][0]["suite"], lists[t][0]["mode"],
+                             lists[t][j]["op"], 0 if bad is not None else div["rep"]),
+                          {"kind": "par_stress", "threads": tl, "reps": reps_, "thread": t2, "call": j, "cold": cold,
+                           "concurrent_event": got, "sequential_event": base[t][j], "fingerprint": "c18-stress-" + lists[t][j]["op"]})
+            return False
+        return True
+    if not hammer:
+        # cold start: the concurrent calls are the first thing a process does (anything initialised lazily, on first
+        # use, is initialised by several threads at once); a new process each time
+        from .execproc import Executor
+        ncold = max(4, min(24, reps // 400))
+        lazy = tuple(t for t in range(nl) if not lists[t][0]["info"] and "psk" not in lists[t][0])    # the all-default sessions
+        for k in range(ncold):
+            with Executor() as cold:
+                # alternately: all scripts twice (32 threads), and only the sessions with empty info and no PSK twice
+                # (few enough threads to really start together)
+                if not run_par(cold, 2, True, order=lazy if (k % 2 and lazy) else tuple(range(nl))):
+                    return False
+        chk.case(("coldstart", nthreads, ncold))
+    if not run_par(ex, reps, False):
         return False
+    chk.case(("stress", nthreads, reps, hammer))
     for cmds in lists:
         for c in {c["ctx"] for c in cmds}:
             ex.call({"op": "drop", "ctx": c})
